@@ -8,8 +8,6 @@ from sa import cli
 props = cli.load_rules()
 
 NOT_APPLICABLE = {
-    'C11': 'quantifies over all regular expressions x strings; the object to examine is the OUTPUT of state.from_regex (translation '
-           'validation of an algorithm), which only exists by running it - not decidable from its source shape.  DESIGN.md section 6.',
 }
 PENDING = 'check not yet built in this framework revision (static rules designed in DESIGN.md section 5, not yet implemented)'
 
